@@ -88,16 +88,12 @@ impl G {
                     let c = n(1);
                     if self.rpos.checked_add(c).map_or(false, |e| e <= self.size) {
                         self.rpos += c
-                    } else if self.rpos < self.size {
-                        self.rpos = self.size
                     }
                 }
                 "W_bytes" => {
                     let c = if f[1] == "-" { 0 } else { (f[1].len() / 2) as u64 };
                     if self.wpos.checked_add(c).map_or(false, |e| e <= self.size) {
                         self.wpos += c
-                    } else if self.wpos < self.size {
-                        self.wpos = self.size
                     }
                 }
                 "R_str" | "R_ptr" => {
